@@ -87,6 +87,7 @@ def plan(tier, seed):
     units += [("allips", o) for o in OCT]
     units += [("tlds", i, 16) for i in range(16)]
     units += [("createobject",), ("pe",)]
+    units += core.interp_axis([("createobject",), ("pe",)] + [("inst", tier, i) for i in range(0, len(instances()), 9)])
     return units
 
 
